@@ -409,13 +409,16 @@ class USBStreamOutEndpoint(Elaboratable):
             with m.If(rx_last):
                 m.d.usb += transfer_active.eq(full_packet)
 
-        # We'll set the overflow flag if we're receiving data we don't have room for.
+        # We'll set the overflow flag if we're receiving data we don't have room for. It has to outlast the
+        # handshake we issue for the packet (an inter-packet delay after the packet is committed or discarded);
+        # so we'll only clear it once the next transaction starts.
         with m.If(data_is_lost):
             m.d.usb += overflow.eq(1)
-
-        # We'll clear the overflow flag and byte counter when the packet is done.
-        with m.Elif(fifo.write_commit | fifo.write_discard):
+        with m.Elif(tokenizer.new_token):
             m.d.usb += overflow.eq(0)
+
+        # We'll clear the byte counter when the packet is done.
+        with m.If(fifo.write_commit | fifo.write_discard):
             m.d.usb += rx_cnt.eq(0)
 
         # We'll toggle our DATA PID each time we issue an ACK to the host [USB 2.0: 8.6.2].
